@@ -96,8 +96,8 @@ def cases(tier, seed):
         for name, h in hs:
             if not any(_mentions(h, key) for key in keys):
                 continue
-            if 'UIntList' in name:
-                # UIntList(List[int]) carries its item hint in the class definition, not in the hint as
+            if 'UIntList' in name or 'UTagged' in name:
+                # UIntList(List[int]) / UTagged(UGenList[str], ...) carry an item hint in the class definition, not in the hint as
                 # written; beartype applies overrides there too (same situation as Counter below)
                 continue
             if 'Counter' in name and int in keys:
